@@ -121,7 +121,11 @@ class C20(Prop):
             "file and dict routes must give the same configuration. Non-trivial = >=2 options or >=2 steps; distinct by input hash.")
 
     def corpus(self):
-        return [dict(c) for c in CLAUSES] + ctor_pair("mynodes", "mycls", True, "file") + ctor_pair("cls-nodes", "cls", False, "file") + ctor_pair("inv", "inv.classes", True, "opts") + ctor_pair("a/b", "a/bc", False, "file") + ctor_pair("a/b", "a/b/c", False, "file") + ctor_pair("123", "true", False, "file") + super().corpus()
+        # unknown options are ignored whatever their (YAML-representable) value is, on every route
+        unk = [{"op": "py_config", "py_options": o, "ctor": {}} for o in (
+            {"unknown_key": None}, {"unknown_key": "x", "storage_type": None}, {"unknown_key": {"a": None, "b": [1, None]}},
+            {"unknown_key": [1, 2.5, True, "s"], "ignore_class_notfound": True}, {"unknown_key": 7, "other": -1.5})]
+        return unk + [dict(c) for c in CLAUSES] + ctor_pair("mynodes", "mycls", True, "file") + ctor_pair("cls-nodes", "cls", False, "file") + ctor_pair("inv", "inv.classes", True, "opts") + ctor_pair("a/b", "a/bc", False, "file") + ctor_pair("a/b", "a/b/c", False, "file") + ctor_pair("123", "true", False, "file") + super().corpus()
 
     def cases(self, tier, seed):
         yield from behaviour_cases(tier, seed)
@@ -168,6 +172,11 @@ class C20(Prop):
                 base = C("opts", opts, [])
                 yield base
                 yield py_case(base)
+                if i % 9 == 0:
+                    extra = py_case(base)
+                    extra.pop("twin_of"); extra.pop("py_twin")
+                    extra["py_options"][r.choice(["unknown_key", "zzz", "storage_type"])] = r.choice([None, {"k": None}, [None], 3, 2.5, "s", [], {}])
+                    yield extra
             if not steps or i % 2 == 0:
                 t = C("opts" if route == "file" else "file", opts, [])
                 t["twin_of"] = core.case_hash(C(route, opts, []))
